@@ -258,9 +258,9 @@ def bound(tier):
   if tier == 'quick':
     return ('threads: 11 harnesses (2-3 threads; the wide nested-constructor harness H10 runs in the thorough tier only), all schedules with <=1 preemption at shared-state granularity plus <=3 (2 threads) / '
             '<=2 (3 threads) preemptions at points inside the code that touches the store concerned; sequential depth 4')
-  return ('threads: 12 harnesses, all schedules with <=2 preemptions (two-thread harnesses; <=1 for three threads and the '
-          'nested-constructor harnesses) at shared-state granularity, <=3 / <=2 inside the code that touches the store '
-          'concerned, and <=1 at all-gin-lines granularity; sequential depth 6')
+  return ('threads: 12 harnesses (incl. the wide nested-constructor harness H10), all schedules with <=1 preemption at '
+          'shared-state granularity, <=3 (2 threads) / <=2 (3 threads) inside the code that touches the store concerned, and <=1 '
+          'at all-gin-lines granularity for the two-thread harnesses; sequential depth 6')
 
 
 def plan(tier):
@@ -282,14 +282,13 @@ def plan(tier):
       out.append((h, 1, 'shared'))
     elif h.startswith('H9'):
       out.append((h, 1, 'shared'))
-      out.append((h, 1, 'all'))
     else:
-      # the quick plan, one more preemption at shared-state granularity for the two-thread harnesses, and every
-      # schedule with <=1 preemption at all-gin-lines granularity
+      # the quick plan plus, for the two-thread harnesses, every schedule with <=1 preemption at all-gin-lines granularity
       two = len(HARNESSES[h]()) == 2
+      out.append((h, 1, 'shared'))
       out.append((h, 3 if two else 2, focus))
-      out.append((h, 2 if two else 1, 'shared'))
-      out.append((h, 1, 'all'))
+      if two:
+        out.append((h, 1, 'all'))
   return out
 
 
